@@ -13,6 +13,7 @@ From MV Require Import Doc.Render.
 From MV Require Import Doc.Skel.
 From MV Require Import Doc.WF.
 From MV Require Import Doc.OpsProofs.
+From MV Require Import Doc.DynProofs.
 From MV Require Import Doc.Post.
 From MV Require Import Doc.PostProofs.
 From MV Require Import Doc.TopProofs.
@@ -21,7 +22,8 @@ From MV Require Import Doc.Transforms.
 From MV Require Import Doc.TransProofs.
 Import ListNotations.
 
-Definition static_forest (ts : list tok) : bool := static ts && forallb top_static ts.
+Definition static_forest (B : backend) (C : cfg) (OR : oracles) (ts : list tok) : bool :=
+  static B C OR ts && forallb top_static ts.
 
 Lemma render_doc_inv B C OR ts doc ws :
   render_doc B C OR ts = Good (doc, ws) ->
@@ -38,7 +40,7 @@ Section Final.
   Variable OR : oracles.
 
   Lemma doc_obs ts doc ws :
-    static_forest ts = true -> render_doc B C OR ts = Good (doc, ws) ->
+    static_forest B C OR ts = true -> render_doc B C OR ts = Good (doc, ws) ->
     NoDup (oids doc) /\ sections_ok [] doc = true /\
     (forallb tshape ts = true -> rows_ok doc = true) /\
     (forallb hr_top ts = true -> transitions_ok [] doc = true) /\
@@ -67,7 +69,7 @@ Qed.
 
 Theorem faithful : forall (D : str -> str) B C OR ts doc ws,
   O_lexer_concat OR -> O_canon D OR -> O_no_files OR ->
-  static_forest ts = true ->
+  static_forest B C OR ts = true ->
   render_doc B C OR ts = Good (doc, ws) ->
   has_dropped doc = false ->
   skel_node D doc = skel_toks D B C OR ts.
@@ -90,59 +92,75 @@ Fixpoint erase_backend (s : skel) : list skel :=
 Lemma erase_flat_map_app a b : flat_map erase_backend (a ++ b) = flat_map erase_backend a ++ flat_map erase_backend b.
 Proof. apply flat_map_app. Qed.
 
-Lemma skel_tok_backend_agree D C OR : forall t,
+(* the two back ends were given runs of the dynamic syntax with the same image *)
+Definition O_dyn_agree (D : str -> str) (OR : oracles) : Prop := forall key ty,
+  flat_map erase_backend (match o_dyn OR (v_docutils :: key) with
+                          | Some (ns, _) => skel_nodes D ns | None => [SUnknown ty] end)
+  = flat_map erase_backend (match o_dyn OR (v_sphinx :: key) with
+                            | Some (ns, _) => skel_nodes D ns | None => [SUnknown ty] end).
+
+Lemma dyn_skel_agree D C OR t imgD imgS : O_dyn_agree D OR ->
+  flat_map erase_backend imgD = flat_map erase_backend imgS ->
+  flat_map erase_backend (dyn_skel D Docutils C OR t imgD) = flat_map erase_backend (dyn_skel D Sphinx C OR t imgS).
+Proof.
+  intros Ho Hi. unfold dyn_skel. destruct (dyn_key C OR t) as [|key|]; [exact Hi | apply (Ho key (ty t)) | reflexivity].
+Qed.
+
+Lemma skel_tok_backend_agree D C OR : O_dyn_agree D OR -> forall t,
   flat_map erase_backend (skel_tok D Docutils C OR t) = flat_map erase_backend (skel_tok D Sphinx C OR t).
 Proof.
+  intro Hdyn.
   induction t as [ty0 tg0 at0 co0 mk0 in0 me0 mp0 cs IH] using tok_ind'.
   assert (Hk : flat_map erase_backend (flat_map (skel_tok D Docutils C OR) cs)
                = flat_map erase_backend (flat_map (skel_tok D Sphinx C OR) cs)).
   { induction IH as [|c cs Hc _ IHc]; cbn [flat_map]; auto. rewrite !erase_flat_map_app, Hc, IHc. reflexivity. }
   cbn [skel_tok].
-  destruct (kind_of ty0); cbn [flat_map erase_backend app is_sphinx]; rewrite ?app_nil_r; try rewrite Hk; try reflexivity.
+  destruct (kind_of ty0); try (apply dyn_skel_agree; [exact Hdyn | reflexivity]);
+    cbn [flat_map erase_backend app is_sphinx]; rewrite ?app_nil_r; try rewrite Hk; try reflexivity.
   - (* s *) destruct spec_s_raws as [|r1 [|r2 [|? ?]]]; try reflexivity.
     rewrite !erase_flat_map_app, Hk. reflexivity.
   - (* amsmath *) cbn [meta]. destruct (assoc a_numbered me0) as [v|]; cbn [negb andb]; try reflexivity.
     destruct (str_eqb v v_star); reflexivity.
 Qed.
 
-Lemma skel_toks_backend_agree D C OR ts :
+Lemma skel_toks_backend_agree D C OR ts : O_dyn_agree D OR ->
   flat_map erase_backend (skel_toks D Docutils C OR ts) = flat_map erase_backend (skel_toks D Sphinx C OR ts).
 Proof.
-  unfold skel_toks. induction ts as [|t ts IH]; cbn [flat_map]; auto.
-  rewrite !erase_flat_map_app, skel_tok_backend_agree, IH. reflexivity.
+  intro Hdyn. unfold skel_toks. induction ts as [|t ts IH]; cbn [flat_map]; auto.
+  rewrite !erase_flat_map_app, (skel_tok_backend_agree D C OR Hdyn), IH. reflexivity.
 Qed.
 
 Theorem backends_agree : forall (D : str -> str) C OR ts docD wsD docS wsS,
-  O_lexer_concat OR -> O_canon D OR -> O_no_files OR ->
-  static_forest ts = true ->
+  O_lexer_concat OR -> O_canon D OR -> O_no_files OR -> O_dyn_agree D OR ->
+  static_forest Docutils C OR ts = true -> static_forest Sphinx C OR ts = true ->
   render_doc Docutils C OR ts = Good (docD, wsD) -> has_dropped docD = false ->
   render_doc Sphinx C OR ts = Good (docS, wsS) -> has_dropped docS = false ->
   flat_map erase_backend (skel_node D docD) = flat_map erase_backend (skel_node D docS).
 Proof.
-  intros D C OR ts docD wsD docS wsS H1 H2 H3 Hst HD HdD HS HdS.
-  rewrite (faithful D Docutils C OR ts docD wsD H1 H2 H3 Hst HD HdD).
-  rewrite (faithful D Sphinx C OR ts docS wsS H1 H2 H3 Hst HS HdS).
-  apply skel_toks_backend_agree.
+  intros D C OR ts docD wsD docS wsS H1 H2 H3 H4 HstD HstS HD HdD HS HdS.
+  rewrite (faithful D Docutils C OR ts docD wsD H1 H2 H3 HstD HD HdD).
+  rewrite (faithful D Sphinx C OR ts docS wsS H1 H2 H3 HstS HS HdS).
+  apply skel_toks_backend_agree. exact H4.
 Qed.
 
 (* ---- C03: statements as exported ---- *)
 Theorem single_occurrence_render : forall B C OR ts doc ws,
-  static_forest ts = true -> render_doc B C OR ts = Good (doc, ws) -> NoDup (oids doc).
+  static_forest B C OR ts = true -> render_doc B C OR ts = Good (doc, ws) -> NoDup (oids doc).
 Proof. intros B C OR ts doc ws Hst H. destruct (doc_obs (fun x => x) B C OR ts doc ws Hst H) as [X _]. exact X. Qed.
 
 Theorem sections_ok_render : forall B C OR ts doc ws,
-  static_forest ts = true -> render_doc B C OR ts = Good (doc, ws) -> sections_ok [] doc = true.
+  static_forest B C OR ts = true -> render_doc B C OR ts = Good (doc, ws) -> sections_ok [] doc = true.
 Proof. intros B C OR ts doc ws Hst H. destruct (doc_obs (fun x => x) B C OR ts doc ws Hst H) as [_ [X _]]. exact X. Qed.
 
 Theorem transitions_ok_guarded : forall B C OR ts doc ws,
-  static_forest ts = true -> forallb hr_top ts = true ->
+  static_forest B C OR ts = true -> forallb hr_top ts = true ->
   render_doc B C OR ts = Good (doc, ws) -> transitions_ok [] doc = true.
 Proof.
   intros B C OR ts doc ws Hst Hh H. destruct (doc_obs (fun x => x) B C OR ts doc ws Hst H) as [_ [_ [_ [X _]]]]. auto.
 Qed.
 
 Theorem rows_match_cols : forall B C OR ts doc ws,
-  static_forest ts = true -> forallb tshape ts = true ->
+  static_forest B C OR ts = true -> forallb tshape ts = true ->
   render_doc B C OR ts = Good (doc, ws) -> rows_ok doc = true.
 Proof.
   intros B C OR ts doc ws Hst Hh H. destruct (doc_obs (fun x => x) B C OR ts doc ws Hst H) as [_ [_ [X _]]]. auto.
@@ -173,14 +191,15 @@ Fixpoint drop_leading_nl (s : str) : str :=
 
 Definition stripnl_oracles : oracles :=
   mkO (fun s => if is_empty s then [] else [s]) (fun s => s) (fun s => s) (fun s => s) (fun _ => false) (fun s => s)
-      (fun _ text => Some [([], drop_leading_nl text)]) (fun s => s) (fun s => s) (fun _ => None) (fun _ => None).
+      (fun _ text => Some [([], drop_leading_nl text)]) (fun s => s) (fun s => s) (fun _ => None) (fun _ => None)
+      (fun _ => None) (fun _ => false) (fun _ => []) (fun _ => None).
 
 Definition v_python := Eval vm_compute in lit "python".
 
 (* code is not verbatim when the lexer strips leading newlines (what pygments does through docutils' Lexer) *)
 Theorem code_verbatim_refuted :
   exists (ts : list tok) doc ws,
-    static_forest ts = true /\
+    static_forest Docutils default_cfg stripnl_oracles ts = true /\
     render_doc Docutils default_cfg stripnl_oracles ts = Good (doc, ws) /\ has_dropped doc = false /\
     skel_node (fun x => x) doc <> skel_toks (fun x => x) Docutils default_cfg stripnl_oracles ts.
 Proof.
@@ -219,7 +238,7 @@ Definition sphinx_cfg : cfg :=
 (* Sphinx renderer: two equations with the same label carry the same id *)
 Theorem ids_unique_refuted :
   exists (ts : list tok) doc ws,
-    static_forest ts = true /\
+    static_forest Sphinx sphinx_cfg dummy_oracles ts = true /\
     render_doc Sphinx sphinx_cfg dummy_oracles ts = Good (doc, ws) /\ ids_unique doc = false.
 Proof.
   exists [tok_math_label [97] [108]; tok_math_label [98] [108]]. eexists. eexists.
@@ -267,14 +286,17 @@ End SetId.
 
 Theorem code_verbatim : forall (D : str -> str) B C OR (t : tok) doc ws,
   O_lexer_concat OR -> O_canon D OR -> O_no_files OR ->
-  kind_of (ty t) = KFence -> static_forest [t] = true ->
+  kind_of (ty t) = KFence -> dyn_key C OR t = DStatic -> static_forest B C OR [t] = true ->
   render_doc B C OR [t] = Good (doc, ws) -> has_dropped doc = false ->
   skel_node D doc = [SCode (lang_carried B OR t (Some (fence_name B C OR t))) (strip1nl (content t))].
 Proof.
-  intros D B C OR t doc ws H1 H2 H3 K Hst Hr Hd.
+  intros D B C OR t doc ws H1 H2 H3 K Hdk Hst Hr Hd.
   rewrite (faithful D B C OR [t] doc ws H1 H2 H3 Hst Hr Hd).
   unfold skel_toks. cbn [flat_map]. rewrite app_nil_r.
-  destruct t as [ty0 tg0 at0 co0 mk0 in0 me0 mp0 cs0]. cbn [skel_tok ty] in *. rewrite K. reflexivity.
+  assert (E : skel_tok D B C OR t =
+              dyn_skel D B C OR t [SCode (lang_carried B OR t (Some (fence_name B C OR t))) (strip1nl (content t))]).
+  { destruct t as [ty0 tg0 at0 co0 mk0 in0 me0 mp0 cs0]. cbn [skel_tok ty] in *. rewrite K. reflexivity. }
+  rewrite E. unfold dyn_skel. rewrite Hdk. reflexivity.
 Qed.
 
 Theorem transitions_ok_refuted :
@@ -311,7 +333,7 @@ Proof. vm_compute. reflexivity. Qed.
 (* rendering followed by the modelled transforms (SortFootnotes, docutils Footnotes, UnreferencedFootnotesDetector,
    CollectFootnotes, ResolveAnchorIds) *)
 Theorem single_occurrence_xform : forall B C OR ts doc ws,
-  static_forest ts = true -> render_xform B C OR ts = Good (doc, ws) -> NoDup (oids doc).
+  static_forest B C OR ts = true -> render_xform B C OR ts = Good (doc, ws) -> NoDup (oids doc).
 Proof.
   intros B C OR ts doc ws Hst H. unfold static_forest in Hst. apply andb_true_iff in Hst. destruct Hst as [Hs1 Hs2].
   unfold render_xform in H. destruct (render_state B C OR ts) as [s|e] eqn:Er; [|discriminate].
@@ -321,7 +343,7 @@ Proof.
 Qed.
 
 Theorem single_occurrence : forall B C OR ts,
-  static_forest ts = true ->
+  static_forest B C OR ts = true ->
   (forall doc ws, render_doc B C OR ts = Good (doc, ws) -> NoDup (oids doc)) /\
   (forall doc ws, render_xform B C OR ts = Good (doc, ws) -> NoDup (oids doc)).
 Proof.
